@@ -2,13 +2,14 @@
 # run_benign.sh <group> <props comma separated> [patch numbers...]
 # Runs the quick checks against each behaviour-preserving patch /verif/benign/<group>/patchN.diff (as a build overlay).
 # A correct patch must leave every check silent (exit 0, no VIOLATION line).
+ROOT=$(cd "$(dirname "$(readlink -f "$0")")/.." && pwd)
 g=$1; props=$2; shift 2
 nums=${@:-1 2 3 4 5}
 for n in $nums; do
-  p=${BENIGN_DIR:-/verif/benign}/$g/patch$n.diff
+  p=${BENIGN_DIR:-$ROOT/benign}/$g/patch$n.diff
   [ -f "$p" ] || { echo "$g patch$n: missing"; continue; }
   for pr in ${props//,/ }; do
-    out=$(/verif/selftest/run.py --patch "$p" --props "$pr" --no-suite -v 2>&1)
+    out=$($ROOT/selftest/run.py --patch "$p" --props "$pr" --no-suite -v 2>&1)
     if echo "$out" | grep -q "check=silent"; then echo "$g patch$n $pr: silent"; else echo "$g patch$n $pr: NOT SILENT"; echo "$out" | tail -12 | cut -c1-400; fi
   done
 done
